@@ -2,7 +2,7 @@
 import random, json, common
 from common import log
 
-SHORT = {"a": "甲", "b": "乙", "c": "丙", "d": "丁"}
+SHORT = {"a": "甲", "b": "乙", "c": "丙", "d": "丁", "e": "戊"}
 
 
 def strs(row):
@@ -16,11 +16,20 @@ def run(ctx):
     vecs = common.vectors(txt, "mod")
     txt2, _ = common.tlc(ctx, "ZnModule", "MC_ZnModule_missing.cfg", timeout=900)
     mvecs = common.vectors(txt2, "mod")
+    # four imported modules: all 65536 digraphs (thorough) / 1500 TLC-drawn digraphs (quick) x four import lists of the main file
+    txt4, _ = common.tlc(ctx, "MC_ZnModule4", "MC_ZnModule4_all.cfg", timeout=3000)
+    vecs4 = common.vectors(txt4, "mod")
+    if len(vecs4) != 65536 * 4:
+        raise common.NoVerdict("unexpected number of four-module vectors: %d" % len(vecs4))
+    if ctx.tier == "quick":
+        vecs4 = rnd.sample(vecs4, 6000)        # TLC checked the invariants on all of them; a seeded sample is replayed
     if len(vecs) != 7680 or len(mvecs) < 500:
         raise common.NoVerdict("unexpected vector counts %d %d" % (len(vecs), len(mvecs)))
     cases, meta = [], []
     for v in vecs:
         cases.append(dict(id=len(cases), edges=v["edges"], main=v["main"], mods=["a", "b", "c"], extra="", more=True)); meta.append(("graph", v))
+    for v in vecs4:
+        cases.append(dict(id=len(cases), edges=v["edges"], main=v["main"], mods=["a", "b", "c", "e"], extra="", more=True)); meta.append(("graph4", v))
     for v in mvecs:
         cases.append(dict(id=len(cases), edges=v["edges"], main=v["main"], mods=["a", "b", "d"], extra="")); meta.append(("missing", v))
     # export / read-only / selective-import probes (a -> b chain)
@@ -92,10 +101,10 @@ def run(ctx):
                 rep("body-order-before-error", "bodies before the error %s, spec %s" % (bodies, want_bodies))
     cov = dict(traces_validated_against_impl=len(cases), samples=[vecs[1000], mvecs[10]],
                evaluations=len(cases), distinct_nontrivial=len(cases),
-               rule="all 512 digraphs (self-loops included) on three imported modules x all 15 ordered non-empty import lists of the main file (7680 runs), plus all digraphs on two "
-                    "modules with a missing third one (576): TLC runs the depth-first load machine (invariants: body at most once, imports before body, circular error iff a cycle "
+               rule="all 512 digraphs (self-loops included) on three imported modules x all 15 ordered non-empty import lists of the main file (7680 runs), all 65536 digraphs on FOUR "
+                    "imported modules x four import lists (TLC checks the invariants on all 262144; quick replays a seeded 6000 of them, thorough all), plus all digraphs on two modules with a missing third one (576): TLC runs the depth-first load machine (invariants: body at most once, imports before body, circular error iff a cycle "
                     "is reachable - against an independent transitive-closure definition) and emits body trace and result; each vector becomes a directory of .zn files with "
                     "1-3 path segments, executed with LoadFile().Execute: body order/multiplicity, error code 63/60, and four probes per module (an imported method, a handler block of an imported method, a body "
                     "constructing the module's type and a method of that type must all be able to use their own module's names; modules not imported by main are not visible); plus 8 export/read-only/selective-import probe programs",
                spec_outcomes=outcomes)
-    return cov, ["import order inside a module is alphabetical (the generator writes it that way)", "thorough tier identical to quick (the space is already exhaustive for 3 modules)"]
+    return cov, ["import order inside a module is alphabetical (the generator writes it that way)", "four modules: exhaustive in the thorough tier, a TLC-seeded sample in the quick tier"]
